@@ -263,26 +263,29 @@ func compositions(n int, f func([]int)) {
 	rec(n, nil)
 }
 
+// splitCase: ScanMessages called directly on a buffer without spare capacity
+func (c *ctx) splitCase(d []byte, eof bool) {
+	if len(d) == 0 && !eof {
+		return // bufio never calls the split function with no data before EOF
+	}
+	var adv int
+	var tok []byte
+	var err error
+	if p, _ := protect(func() { adv, tok, err = xsens.ScanMessages(exact(d), eof) }); p || err != nil {
+		c.emit("split", tup(nlist(d), cbool(eof), "99999999", "None"))
+		return
+	}
+	t := "None"
+	if tok != nil {
+		t = some(nlist(tok))
+	}
+	c.emit("split", tup(nlist(d), cbool(eof), us(uint64(adv)), t))
+}
+
 func init() {
 	props["C01"] = func(c *ctx) {
 		// ---- direct calls of ScanMessages ----
-		emitSplit := func(d []byte, eof bool) {
-			if len(d) == 0 && !eof {
-				return // bufio never calls the split function with no data before EOF
-			}
-			var adv int
-			var tok []byte
-			var err error
-			if p, _ := protect(func() { adv, tok, err = xsens.ScanMessages(exact(d), eof) }); p || err != nil {
-				c.emit("split", tup(nlist(d), cbool(eof), "99999999", "None"))
-				return
-			}
-			t := "None"
-			if tok != nil {
-				t = some(nlist(tok))
-			}
-			c.emit("split", tup(nlist(d), cbool(eof), us(uint64(adv)), t))
-		}
+		emitSplit := c.splitCase
 		allStrings(c.pick(4, 5), func(b []byte) { emitSplit(b, false); emitSplit(b, true) })
 		allStrings(c.pick(3, 4), func(b []byte) {
 			emitSplit(append([]byte{0x01, 0xfa, 0xff, 0x10}, b...), false)
